@@ -29,7 +29,7 @@ LEVEL = {
     "C07": ("Theorems (complete except hashing): extract∘new = id and new∘extract = id for every day number and µs (also before 1970), date()/time() = extract, validity both ways, lexicographic order and injectivity; try_from_hms accepts exactly h<24,m<60,s<60,µs<10^6 with the first failing field reported, extract/from_hms mutually inverse, accessors = fields, second() = s + µs/10^6 correctly rounded. Hash: SipHash is not modelled; hash(a)=hash(b) ⇔ a=b is sampled on the crate. "
             "Tie: all dates × 5 critical times through new/extract/accessors, all 86,400 seconds × 3 µs and all 10^6 µs at 4 seconds, dense µs sweeps of second(), the hms grid."),
     "C08": ("Theorems for all valid receivers and ALL i32/i64 operands: each add/sub = exact integer result if in range else the range error, infallible differences in range, no i64 overflow in add_time/sub_time, x+i−i=x, (x+i)−x=i, a−b=−(b−a). "
-            "f64 day offsets (soft-float): whole days and every offset whose µs count is exactly representable are added exactly with the exact range gate; classification of NaN/∞/huge; the general rounding bound is partial (see DESIGN §13.4). "
+            "f64 day offsets (soft-float, statements over ℚ in Props/C08Accuracy): for EVERY valid timestamp and finite double x, add_days returns ts + roundHalfAway(q) with |q − x·86400e6| ≤ 2^-53·|x·86400e6| exactly when that is a valid timestamp, DateOutOfRange otherwise, NumericOverflow only if the double product overflowed; hence |r − ts − p| ≤ 1/2 + 2^-53|p|; exact for whole days and exactly representable offsets. "
             "Tie: 26 linear ops × boundary pools crossed + random, both overflow modes; all dates ± k days; 20k fractional offsets incl. ties."),
     "C09": ("Theorems (complete): add-months = same day and time in the month k away with year/month carried by floor division, for EVERY integer k; DateOutOfRange ⇔ the year leaves 1..9999, InvalidDate ⇔ that month has no such day (never clamps); no i32 overflow; sub = add∘neg; time of day unchanged; last_day_of_month = last day (28/29/30/31) of the value's own month, time unchanged. "
             "Tie: all dates × 15–81 month offsets incl. interval limits, all dates for last_day_of_month, timestamps × critical times."),
@@ -43,11 +43,11 @@ LEVEL = {
     "C13": ("Theorems (complete): sign/field decomposition with ranges and uniqueness, constructors = classify for all u32 tuples with error order, is_valid ⇔, extract∘ctor = id, negation involutive and range-preserving, signed accessors = sign × field, second() correctly rounded. "
             "Tie: year-month values strided + 300k contiguous at the ends and zero, day-time every second within ±2 days and powers of ten, dense µs sweeps, constructor grids."),
     "C14": ("Theorems: complete classification of mul_f64/div_f64 for all 2^64 scalars; results in range; cast truncates toward zero and saturates; exact products for integer factors below 2^53; sign symmetry (−x)·k = −(x·k) = x·(−k) through rounding and cast; each rounding within half an ulp and relative error ≤ u/(1+u), u = 2^-53, in the normal range. "
-            "The composed two-rounding 2^-52 statement over ℚ is partial (see DESIGN §13.4). "
+            "Composed statement over ℚ (Props/C14Accuracy): for every valid interval and finite scalar, mul/div returns truncQ(q) for some q within relative error 2^-52 of the exact real product/quotient when that is in range, IntervalOutOfRange otherwise, NumericOverflow only on double overflow; in the normal range q is the computed double itself (counterexample for the subnormal range recorded). "
             "Tie: scaling ops × intervals × 100+ special/random doubles; the soft-float itself diffed against hardware on 20k+ operations per run."),
     "C15": ("Theorems (complete on the model): binary — every raw integer decodes to a valid value equal to the raw count or an error; round trip for every valid value. Human-readable — for EVERY valid value of every type serialisation succeeds within the 32-byte buffer and deserialising the text returns the value under any clock; ANY accepted text decodes to a value in range (whole seconds for the Oracle date); never panics. serde_json/bincode transport is exercised, not modelled. "
             "Tie: all dates and all seconds through serde_json + bincode, raw counts at limits ±2 and integer extremes, perturbed strings, short/ill-typed payloads (harness-only)."),
-    "C16": ("Theorems (complete except the general f64 bound): validity ⇔ in range ∧ whole second; From<Timestamp> = ⌊ts/10^6⌋·10^6 (greatest whole second ≤ ts, also before 1970); new drops the sub-second part; interval arithmetic = timestamp result floored; add_days = timestamp add_days then nearest second (ties away from zero) and always valid; sub_date = correctly rounded quotient; parse/trunc/round results valid (C02). "
+    "C16": ("Theorems (complete): validity ⇔ in range ∧ whole second; From<Timestamp> = ⌊ts/10^6⌋·10^6 (greatest whole second ≤ ts, also before 1970); new drops the sub-second part; interval arithmetic = timestamp result floored; add_days = timestamp add_days (C08Accuracy) then nearest second, ties away from zero (roundToSecond = 10^6·roundHalfAway(u/10^6), Props/C16Accuracy) and always valid; sub_date = correctly rounded quotient; parse/trunc/round results valid (C02). "
             "Tie: all dates × 3 times × 5 sub-second parts for conversions, every OD op × pools, 20k fractional day offsets incl. half-second ties."),
     "C17": ("Theorems (complete on the model): truncation AND rounding through Timestamp at a date's midnight = Date truncation/rounding at midnight for all 12 units (errors included); Oracle ops = timestamp op then floor; last_day/add-months agree through Date and Timestamp; midnight is an order embedding (all mixed comparisons, both argument orders). "
             "Tie: all dates × 12 units × trunc/round through all three types, mixed comparisons and shared ops (incl. differences) × pools."),
